@@ -285,10 +285,11 @@ def read_stats(outdir):
 # ------------------------------------------------------------------------------------------------
 
 def load_known():
-    p = os.path.join(VERIF, "known_findings.json")
-    if not os.path.exists(p):
-        return []
-    return json.load(open(p))
+    res = []
+    for p in [os.path.join(VERIF, "known_findings.json")] + sorted(glob.glob(os.path.join(VERIF, "known_findings.d", "*.json"))):
+        if os.path.exists(p):
+            res += json.load(open(p))
+    return res
 
 
 def write_replay(prop, obj):
